@@ -114,7 +114,7 @@ def sort_replay(ck, bdir, lines):
         p = ln.split()
         got = [int(x) for x in p[1:] if x != "G"]
         if p[0] != "R" or "G" in p or got != cases[k]:
-            ck.violation("sort_replace breaks the sorted multiset: sort_replace(arr=%s, n=%d, old=%d, new=%d) left "
+            ck.violation("sort_replace (src/emu/sort.c) does not keep the sorted multiset of the rows: sort_replace(arr=%s, n=%d, old=%d, new=%d) left "
                          "arr=%s%s; the specification requires %s" % (list(k[0]), len(k[0]), k[1], k[2], got,
                                                             " and wrote outside the array" if "G" in p else "",
                                                             cases[k]),
@@ -293,6 +293,7 @@ def validate(execs, nchunks=8):
     chunk, the rest is then left unvalidated and counted).
     Returns (accepted indices, {index: first stale record}, rejected, skipped, states, generated)."""
     n = len(execs)
+    nchunks = max(nchunks, n // 300)
     size = max(1, (n + nchunks - 1) // nchunks)
     chunks = [list(range(i, min(i + size, n))) for i in range(0, n, size)]
 
@@ -398,15 +399,15 @@ def conformance(ck, bdir, g, mc, tier, label, rng):
     system = emuhist.sys_with_rank(g.system)
     gids = gids_for(bdir, mc)
     hs = g.histories(limit=None)
-    if tier == "quick":
-        # every model transition that changes something first, a sample of the refusals
-        hs.sort(key=lambda x: json.dumps(x[1], sort_keys=True))
-        acc = [x for x in hs if x[0] == "accept"]
-        oth = [x for x in hs if x[0] != "accept"]
-        rng.shuffle(acc)
-        rng.shuffle(oth)
-        hs = acc[:700] + oth[:120]
-    hs += random_walks(g, rng, 120 if tier == "quick" else 2000, 40 if tier == "quick" else 120)
+    # every model transition that changes something first, a sample of the refusals
+    hs.sort(key=lambda x: json.dumps(x[1], sort_keys=True))
+    acc = [x for x in hs if x[0] == "accept"]
+    oth = [x for x in hs if x[0] != "accept"]
+    rng.shuffle(acc)
+    rng.shuffle(oth)
+    nacc, noth, nrand, rlen = (700, 120, 120, 40) if tier == "quick" else (10000, 2000, 2000, 120)
+    hs = acc[:nacc] + oth[:noth]
+    hs += random_walks(g, rng, nrand, rlen)
 
     results = core.pmap(lambda x: run_one(bdir, system, mc, gids, x[1]), hs)
     execs = [r[0] for r in results]
